@@ -523,6 +523,30 @@ def run_case(case, tape, ctx):
         return W.result(viol, agg, outcome=rt['outcome'])
     check_rt(case, rt, viol, stats)
     check_nrt(case, nrt, viol, stats, False)
+    # the logical time a routine sends at is the one the program implies
+    # (independent model), in both worlds
+    model = rprog.Model(case['prog']).run()
+    want = {}
+    for ev in model.events:
+        if ev[0] == 'send':
+            want.setdefault(ev[1], []).append(ev[2])
+    for name, res in (('rt', rt), ('nrt', nrt)):
+        got = {}
+        for e in res['trace']:
+            if e['ev'] == 'send' and e['r'] != 'main':
+                got.setdefault(e['r'], []).append(e['secs'])
+        for rid, ws in want.items():
+            gs = got.get(rid, [])
+            if model.ambiguous or model.cross_tie:
+                break
+            for i, (a, b) in enumerate(zip(gs, ws)):
+                stats['send-times-vs-model'] = stats.get(
+                    'send-times-vs-model', 0) + 1
+                if abs(a - b) > 1e-9 * max(1.0, abs(b)):
+                    viol.add('C07-1', f'{name}-send-logical-time',
+                             f'{name}: routine {rid} sends its bundle {i} at '
+                             f'logical time {a}, the program implies {b}')
+                    break
     sample = {'driver': case['driver'][:4], 'loopback': case['loopback'],
               'sends': [e for e in rt['trace'] if e['ev'] == 'send'][:2]}
     for s in sample['sends']:
